@@ -259,6 +259,7 @@ type fileDigest struct {
 	Path        string `yaml:"path"`
 	Size        int64  `yaml:"size"`
 	ModTime     int64  `yaml:"mtime"`
+	SHA256      string `yaml:"sha256,omitempty"`
 	OverlayHash string `yaml:"overlay_hash,omitempty"`
 }
 
@@ -289,10 +290,16 @@ func digestFilesWithOverlay(paths []string, overlay map[string][]byte) ([]fileDi
 		if err != nil {
 			return nil, fmt.Errorf("stat file %q: %w", path, err)
 		}
+		// size and mtime alone miss an edit that keeps both (restored checkouts, touch -r): hash the content
+		hash, err := digestFile(path)
+		if err != nil {
+			return nil, fmt.Errorf("digest file %q: %w", path, err)
+		}
 		digests = append(digests, fileDigest{
 			Path:    path,
 			Size:    info.Size(),
 			ModTime: info.ModTime().UnixNano(),
+			SHA256:  hash,
 		})
 	}
 
